@@ -17,7 +17,9 @@ import (
 // that reaches the client must still decode to the field values of exactly one of those results, and each
 // result must arrive exactly once. Deviation-bounded schedule exploration at the granularity of every mutex
 // operation inside the server (fine mode) of a full node with real connections.
-func c14ConnScenario(kind string) explore.Scenario {
+func c14ConnScenario(kind string) explore.Scenario { return connScenario("C14", kind) }
+
+func connScenario(prop, kind string) explore.Scenario {
 	return func(opt vrt.Options) (*vrt.RT, explore.Outcome) {
 		var engErr string
 		var got []string
@@ -55,7 +57,9 @@ func c14ConnScenario(kind string) explore.Scenario {
 			switch kind {
 			case "own-answer-vs-foreign-grant":
 				// a's own handler answers request 11 while b's handler grants a's queued request 10
-				spawn("a-writes", func() { _, _ = a.C.Write(wire.BinFrame(hapi.Cmd{Type: 1, Req: 11, Key: 2, Id: 3, Expried: 30, Count: 7, Rcount: 5})) })
+				spawn("a-writes", func() {
+					_, _ = a.C.Write(wire.BinFrame(hapi.Cmd{Type: 1, Req: 11, Key: 2, Id: 3, Expried: 30, Count: 7, Rcount: 5}))
+				})
 				spawn("b-unlocks", func() { _, _ = b.C.Write(wire.BinFrame(hapi.Cmd{Type: 2, Req: 12, Key: 1, Id: 1})) })
 			case "two-grants":
 				// two other connections' handlers grant two requests a has queued on different keys
@@ -95,11 +99,11 @@ func c14ConnScenario(kind string) explore.Scenario {
 			return rt, out
 		}
 		if rt.Crash != nil {
-			out.Violations = []explore.Violation{{Sig: "C14:crash", Msg: rt.Crash.Value + "\n" + firstLines(rt.Crash.Stack, 14)}}
+			out.Violations = []explore.Violation{{Sig: prop + ":crash", Msg: rt.Crash.Value + "\n" + firstLines(rt.Crash.Stack, 14)}}
 			return rt, out
 		}
 		if rt.Deadlock != "" {
-			out.Violations = []explore.Violation{{Sig: "C14:deadlock", Msg: rt.Deadlock}}
+			out.Violations = []explore.Violation{{Sig: prop + ":deadlock", Msg: rt.Deadlock}}
 			return rt, out
 		}
 		want := map[string][]string{
@@ -107,13 +111,15 @@ func c14ConnScenario(kind string) explore.Scenario {
 			"two-grants":                  {"req10=0 key1 id2 lc1 c0 lrc1 rc3", "req13=0 key3 id4 lc1 c0 lrc1 rc1"},
 		}[kind]
 		if strings.Join(got, " | ") != strings.Join(want, " | ") {
-			out.Violations = []explore.Violation{{Sig: "C14:result-frames-mixed-up", Msg: fmt.Sprintf("scenario %s: the connection received the result frames [%s]; the results produced for it are [%s]", kind, strings.Join(got, " | "), strings.Join(want, " | "))}}
+			out.Violations = []explore.Violation{{Sig: prop + ":result-frames-mixed-up", Msg: fmt.Sprintf("scenario %s: the connection received the result frames [%s]; the results produced for it are [%s]", kind, strings.Join(got, " | "), strings.Join(want, " | "))}}
 		}
 		return rt, out
 	}
 }
 
-func c14ConnPlan(quick bool) *FuncPlan {
+func c14ConnPlan(quick bool) *FuncPlan { return c14ConnPlanFor("C14", quick) }
+
+func c14ConnPlanFor(prop string, quick bool) *FuncPlan {
 	bound := func(q bool) int {
 		if q {
 			return 2
@@ -121,9 +127,9 @@ func c14ConnPlan(quick bool) *FuncPlan {
 		return 3
 	}
 	return &FuncPlan{Scens: []*FuncScenario{
-		{Name: "own-answer-vs-foreign-grant", Fine: true, Bound: bound, Sc: c14ConnScenario("own-answer-vs-foreign-grant"),
+		{Name: "own-answer-vs-foreign-grant", Fine: true, Bound: bound, Sc: connScenario(prop, "own-answer-vs-foreign-grant"),
 			Desc: []string{"connection a has request 10 queued behind b's hold; thread 1: a sends LOCK key 2 (answered by a's handler); thread 2: b sends UNLOCK key 1 (b's handler grants request 10 and writes the result to a)"}},
-		{Name: "two-grants", Fine: true, Bound: bound, Sc: c14ConnScenario("two-grants"),
+		{Name: "two-grants", Fine: true, Bound: bound, Sc: connScenario(prop, "two-grants"),
 			Desc: []string{"connection a has two requests queued on keys 1 and 3; two other connections unlock them at the same time: two handler threads write results to a"}},
 	}, MaxExec: func(q bool) int64 {
 		if q {
